@@ -17,7 +17,7 @@ RULE = ("plan = frame (0..12 rows quick / 0..40 thorough, 1..3 key columns + 0..
         "distinct values, or a missing key cell, or a ≥ 50-char / legacy / object key, or a descending key). Distinct = plan hash.")
 CASES = {"quick": 2000, "thorough": 16000}
 
-KEY_KINDS = ["f", "i", "b", "s", "s", "u", "d", "t", "td", "o", "oi", "y", "i8", "u8", "i32", "f32"]
+KEY_KINDS = ["f", "i", "b", "s", "s", "u", "d", "t", "td", "o", "oi", "y", "i8", "u8", "i32", "f32", "tn"]
 PAY_KINDS = ["f", "i", "s", "u", "d", "o", "b"]
 
 
